@@ -19,6 +19,19 @@ NWORK = int(os.environ.get("VERIF_WORKERS", "16"))
 PROPS = {
     "C09": dict(world="ogm", quick=40, thorough=420, chunk=4000),
     "C04": dict(world="seat", quick=40, thorough=420, chunk=8000),
+    "C01": dict(world="table", quick=45, thorough=480, chunk=1200),
+    "C02": dict(world="table", quick=45, thorough=480, chunk=1200),
+    "C03": dict(world="table", quick=45, thorough=480, chunk=1200),
+    "C05": dict(world="table", quick=45, thorough=480, chunk=1200),
+    "C06": dict(world="table", quick=45, thorough=480, chunk=1200),
+    "C07": dict(world="table", quick=45, thorough=480, chunk=1200),
+    "C08": dict(world="table", quick=45, thorough=480, chunk=1200),
+    "C10": dict(world="table", quick=45, thorough=480, chunk=1200),
+    "C11": dict(world="table", quick=45, thorough=480, chunk=1200),
+    "C12": dict(world="table", quick=45, thorough=480, chunk=1200),
+    "C13": dict(world="table", quick=45, thorough=480, chunk=1200, level="fault_enumeration"),
+    "C14": dict(world="table", quick=45, thorough=480, chunk=1200),
+    "C15": dict(world="table", quick=45, thorough=480, chunk=1200),
 }
 
 WORKER_ENV = dict(GODEBUG="randseednop=0", GOMAXPROCS="2")
